@@ -94,7 +94,19 @@ def build_harness(area):
             g.write(f.read())
     except OSError:
         pass
-    rc, out = sh(["go", "build", "-tags", "verif", "-o", target, "./cmd/" + area], cwd=src, env=GOENV, timeout=900)
+    extra = []
+    if os.path.realpath(REPO) != "/repo":
+        # VERIF_REPO points at another tree (a scratch copy carrying a trial edit): same module, other replace target
+        modfile = os.path.join(BUILD, "harness-%s.mod" % area)
+        with open(os.path.join(src, "go.mod")) as f, open(modfile, "w") as g:
+            g.write(f.read().replace("=> /repo", "=> " + os.path.realpath(REPO)))
+        try:
+            with open(os.path.join(src, "go.sum")) as f, open(modfile[:-4] + ".sum", "w") as g:
+                g.write(f.read())
+        except OSError:
+            pass
+        extra = ["-modfile=" + modfile]
+    rc, out = sh(["go", "build", "-tags", "verif"] + extra + ["-o", target, "./cmd/" + area], cwd=src, env=GOENV, timeout=900)
     return rc == 0, out
 
 
@@ -147,7 +159,11 @@ FORBIDDEN = [r"\bAdmitted\b", r"\badmit\b", r"\bAxiom\b", r"\bAxioms\b(?!:)", r"
 def forbidden_scan():
     """Fail closed: no axiom-like declaration anywhere in the development. Returns list of hits."""
     hits = []
-    for d, _, fs in os.walk(COQ):
+    for d, dirs, fs in os.walk(COQ):
+        # coq/run holds generated, evaluation-only case files (written and deleted by the checks): not part of the development
+        if os.path.basename(d) == "run" and os.path.dirname(d) == COQ:
+            dirs[:] = []
+            continue
         for f in fs:
             if not f.endswith(".v"):
                 continue
@@ -212,6 +228,11 @@ def coq_eval(name, text, timeout=900):
     with open(path, "w") as f:
         f.write(text)
     rc, out = sh(["coqc", "-Q", ".", "GCNP", "-w", "-all", "run/%s.v" % name], cwd=COQ, timeout=timeout)
+    if rc == 0:
+        try:
+            os.remove(path)        # keep the case file only when it failed to evaluate (for diagnosis)
+        except OSError:
+            pass
     for ext in (".vo", ".glob", ".vok", ".vos", ".aux"):
         for p in (os.path.join(rundir, name + ext), os.path.join(rundir, "." + name + ext)):
             try:
